@@ -112,3 +112,147 @@ Theorem C15_colsample_samples_partition :
   List.concat (col_samples chunks k l) = l /\ List.length (col_samples chunks k l) = S (k - 1).
 Proof. exact (fun A c k l => conj (col_samples_partition c k l) (col_samples_count c k l)). Qed.
 Print Assumptions C15_colsample_samples_partition.
+
+(* ------------------------------------------------------------------------------------------
+   Last clause of C15 (a feature that is an exact copy of, or strictly monotone in, the target is
+   always among the returned features of its type), on the model.
+   Measures.kruskal = scipy.stats.kruskal (mid-ranks, tie correction), exact, one multiset of
+   (feature value, multiplicity) per target class.
+   ------------------------------------------------------------------------------------------ *)
+From Coq Require Import QArith.
+From AC.Model Require Measures.
+From AC.Proofs Require Import KruskalBoundProofs CopyRankedProofs Chi2BoundProofs.
+
+(* Kruskal-Wallis H never exceeds N - 1 (N = number of rows): any number of classes, any ties *)
+Theorem C15_kruskal_upper_bound :
+  forall (groups : list Measures.ymset) (h : Q),
+  Forall (Forall (fun e : Z * Z => (0 < snd e)%Z)) groups ->
+  Measures.kruskal groups = Some h ->
+  (h <= inject_Z (Measures.ms_n (Measures.ms_union groups) - 1))%Q.
+Proof. exact kruskal_upper_bound. Qed.
+Print Assumptions C15_kruskal_upper_bound.
+
+(* a feature that takes one value per class, different classes having different values (an exact
+   copy of the class target or any injective, in particular strictly monotone, re-encoding of it;
+   at least two classes): H is defined, equals N - 1, and no feature measured on the same rows or
+   on a subset of them (missing values) has a larger H *)
+Theorem C15_kruskal_perfect_feature_is_maximal :
+  forall (vs : list Z) (groups : list Measures.ymset),
+  Forall2 (fun v g => g <> []%list /\ Forall (fun e : Z * Z => fst e = v /\ (0 < snd e)%Z) g) vs groups ->
+  NoDup vs -> (2 <= List.length groups)%nat ->
+  exists h, Measures.kruskal groups = Some h
+    /\ (h == inject_Z (Measures.ms_n (Measures.ms_union groups) - 1))%Q
+    /\ forall groups' h',
+         Forall (Forall (fun e : Z * Z => (0 < snd e)%Z)) groups' ->
+         Measures.kruskal groups' = Some h' ->
+         (Measures.ms_n (Measures.ms_union groups') <= Measures.ms_n (Measures.ms_union groups))%Z ->
+         (h' <= h)%Q.
+Proof. exact kruskal_perfect_is_maximal. Qed.
+Print Assumptions C15_kruskal_perfect_feature_is_maximal.
+
+(* selection model, any ranking measure: when a complete feature x carries the maximal key of
+   ranking column j, a feature with that key is returned (n_best >= 1, whatever the filters) *)
+Theorem C15_top_key_returned :
+  forall t rows j x,
+  NoDup (map rid rows) -> In j (cols_of t rows) -> In x (comp_of t rows) ->
+  (forall y, In y (comp_of t rows) -> (key y j <= key x j)%Z) -> (1 <= t_nbest t)%nat ->
+  exists y, In y (core_of t rows) /\ key y j = key x j.
+Proof. exact select_type_top. Qed.
+Print Assumptions C15_top_key_returned.
+
+(* the copy of the target under kruskal_measure: column j holds H of every complete feature y
+   (grp y = its class-wise value multisets on its non-missing rows, a subset of the rows of x) on
+   a common integer scale den; x is single-valued per class with distinct values.  Then x has the
+   maximal key, a feature with that key is returned, and x itself is returned unless another
+   complete feature is exactly tied with it *)
+Theorem C15_copy_of_target_ranked_first :
+  forall t rows j x (grp : row -> list Measures.ymset) (den : Z) (vs : list Z),
+  NoDup (map rid rows) -> In j (cols_of t rows) -> In x (comp_of t rows) -> (1 <= t_nbest t)%nat ->
+  (0 < den)%Z ->
+  (forall y, In y (comp_of t rows) ->
+     Forall (Forall (fun e : Z * Z => (0 < snd e)%Z)) (grp y) /\
+     (Measures.ms_n (Measures.ms_union (grp y)) <= Measures.ms_n (Measures.ms_union (grp x)))%Z /\
+     exists h, Measures.kruskal (grp y) = Some h /\ (inject_Z (key y j) == h * inject_Z den)%Q) ->
+  Forall2 (fun v g => g <> []%list /\ Forall (fun e : Z * Z => fst e = v /\ (0 < snd e)%Z) g) vs (grp x) ->
+  NoDup vs -> (2 <= List.length (grp x))%nat ->
+  (forall y, In y (comp_of t rows) -> (key y j <= key x j)%Z)
+  /\ (exists y, In y (core_of t rows) /\ key y j = key x j)
+  /\ ((forall y, In y (comp_of t rows) -> y <> x -> key y j <> key x j) -> In x (core_of t rows)).
+Proof. exact copy_of_target_ranked_first. Qed.
+Print Assumptions C15_copy_of_target_ranked_first.
+
+(* the proviso "no exact tie" cannot be dropped: "always among the returned features" is FALSE of
+   the model when two features carry the maximal key (two copies of the target) and n_best = 1 *)
+Theorem C15_copy_of_target_tie_refuted :
+  exists t rows x j,
+    table_of t = Ok rows /\ In x (comp_of t rows) /\ In j (cols_of t rows) /\ (1 <= t_nbest t)%nat /\
+    (forall y, In y (comp_of t rows) -> (key y j <= key x j)%Z) /\
+    select_type t = Ok [0%nat] /\ rid x = 1%nat.
+Proof. exact top_tie_not_returned. Qed.
+Print Assumptions C15_copy_of_target_tie_refuted.
+
+(* chi2 family, binary target (k x 2 table, non-negative counts, no empty row): chi2 <= n with or
+   without Yates' correction, hence Cramer's V^2 = chi2 / n_obs <= 1 *)
+Theorem C15_chi2_upper_bound :
+  forall (rows : list (Z * Z)) (c : Q),
+  Forall (fun r : Z * Z => (0 <= fst r)%Z /\ (0 <= snd r)%Z /\ (0 < fst r + snd r)%Z) rows ->
+  Measures.chi2 rows = Some c -> (c <= inject_Z (col0 rows + col1 rows))%Q.
+Proof. exact chi2_upper_bound. Qed.
+Print Assumptions C15_chi2_upper_bound.
+
+Theorem C15_cramerv2_upper_bound :
+  forall (rows : list (Z * Z)) (n_obs : Z) (v : Q),
+  Forall (fun r : Z * Z => (0 <= fst r)%Z /\ (0 <= snd r)%Z /\ (0 < fst r + snd r)%Z) rows ->
+  (col0 rows + col1 rows <= n_obs)%Z -> Measures.cramerv2 rows n_obs = Some v -> (v <= 1)%Q.
+Proof. exact cramerv2_le_one. Qed.
+Print Assumptions C15_cramerv2_upper_bound.
+
+(* a qualitative feature that determines the class (every row of the table has an empty cell,
+   both classes occur) with k <> 2 categories reaches the maximum V^2 = 1 *)
+Theorem C15_cramerv2_perfect_feature_is_maximal :
+  forall (rows : list (Z * Z)),
+  Forall (fun r : Z * Z => (0 <= fst r)%Z /\ (0 <= snd r)%Z /\ (0 < fst r + snd r)%Z) rows ->
+  Forall (fun r : Z * Z => (fst r * snd r = 0)%Z) rows ->
+  (0 < col0 rows)%Z -> (0 < col1 rows)%Z -> List.length rows <> 2%nat ->
+  exists v, Measures.cramerv2 rows (col0 rows + col1 rows) = Some v /\ (v == 1)%Q.
+Proof. exact cramerv2_perfect. Qed.
+Print Assumptions C15_cramerv2_perfect_feature_is_maximal.
+
+(* ... but the exact copy of a BINARY target is a 2 x 2 table: scipy applies Yates' correction,
+   the copy does not reach the maximum and a 3-category feature nested in the classes is ranked
+   before it by Cramer's V (always) and by Tschuprow's T (on this 12-row sample): the clause is
+   FALSE of the faithful model for qualitative features with n_best = 1 *)
+Theorem C15_qualitative_copy_of_binary_target_refuted :
+  Measures.cramerv2 [(6, 0); (0, 6)]%Z 12 = Some (25 # 36)%Q /\
+  Measures.cramerv2 [(6, 0); (0, 3); (0, 3)]%Z 12 = Some 1%Q /\
+  Measures.tschuprowt4 [(6, 0); (0, 6)]%Z 12 = Some (625 # 1296)%Q /\
+  Measures.tschuprowt4 [(6, 0); (0, 3); (0, 3)]%Z 12 = Some (1 # 2)%Q /\
+  (625 # 1296 < 1 # 2)%Q.
+Proof. exact copy_not_maximal. Qed.
+Print Assumptions C15_qualitative_copy_of_binary_target_refuted.
+
+(* the hypotheses are satisfiable: 9 rows, classes of sizes 3, 2, 4; feature 0 is a re-encoding
+   of the class (H = 8 = N - 1), feature 1 has H = 16/3; keys on the scale den = 3 *)
+Example C15_copy_nonvacuous :
+  let gx := [[(1, 3)]; [(5, 2)]; [(2, 4)]]%Z in
+  let gy := [[(1, 2); (2, 1)]; [(2, 2)]; [(1, 4)]]%Z in
+  let t := mkTin 9 (999, 1000)%Z (999, 1000)%Z 1%nat [mkM true false false 0 0]
+             [mkFeat 0 0 1 [mkRaw false false false 24] [Some 24%Z];
+              mkFeat 1 0 1 [mkRaw false false false 16] [Some 16%Z]] [] in
+  let rows := [mkRow 0 true [CVal 24]; mkRow 1 true [CVal 16]] in
+  let grp := fun r : row => if Nat.eqb (rid r) 0 then gx else gy in
+  table_of t = Ok rows /\ comp_of t rows = rows /\ cols_of t rows = [0%nat] /\
+  Forall2 (fun v g => g <> []%list /\ Forall (fun e : Z * Z => fst e = v /\ (0 < snd e)%Z) g) [1; 5; 2]%Z gx /\
+  NoDup [1; 5; 2]%Z /\
+  Measures.kruskal gx = Some (8 # 1)%Q /\ Measures.kruskal gy = Some (16 # 3)%Q /\
+  Measures.ms_n (Measures.ms_union gx) = 9%Z /\ Measures.ms_n (Measures.ms_union gy) = 9%Z /\
+  (inject_Z 24 == (8 # 1) * inject_Z 3)%Q /\ (inject_Z 16 == (16 # 3) * inject_Z 3)%Q /\
+  select_type t = Ok [0%nat] /\
+  Forall (fun r : Z * Z => (0 <= fst r)%Z /\ (0 <= snd r)%Z /\ (0 < fst r + snd r)%Z) [(6, 0); (0, 3); (0, 3)]%Z.
+Proof.
+  cbv zeta.
+  repeat match goal with |- _ /\ _ => split end; try (vm_compute; reflexivity).
+  - repeat constructor; try discriminate.
+  - repeat constructor; cbn; intuition discriminate.
+  - repeat constructor; cbn; Lia.lia.
+Qed.
